@@ -137,6 +137,12 @@ def subnet_kernels():
         write_if_changed("SubnetKernels.lean", extract_subnet.generate(CORE))
     except extract_subnet.ExtractError as e:
         raise ExtractError("subnet kernels: " + str(e))
+def const_u(path, name, ty):
+    """`const NAME: ty = <integer literal>;` -> int (fail closed)"""
+    m = re.search(r"\bconst\s+%s\s*:\s*%s\s*=\s*([0-9][0-9_]*)\s*;" % (re.escape(name), re.escape(ty)), strip_comments(read(path)))
+    if not m:
+        raise ExtractError(f"{os.path.relpath(path, REPO)}: `const {name}: {ty} = <literal>;` not found")
+    return int(m.group(1).replace("_", ""))
 
 
 def main():
@@ -144,6 +150,11 @@ def main():
     gen_sim_cert()
     subnet_kernels()
     consts = ["-- GENERATED from /repo sources by tools/extract.py on every check; do not edit", "namespace Elvis.Gen", "end Elvis.Gen", ""]
+    consts = ["-- GENERATED from /repo sources by tools/extract.py on every check; do not edit", "namespace Elvis.Gen"]
+    # C11: reassembly timer lower bound (segment.rs `const TLB: u8 = 15;`)
+    tlb = const_u(os.path.join(CORE, "protocols", "ipv4", "reassembly", "segment.rs"), "TLB", "u8")
+    consts += ["/-- reassembly/segment.rs `TLB` (timer lower bound, seconds) -/", f"def TLB : Nat := {tlb}"]
+    consts += ["end Elvis.Gen", ""]
     write_if_changed("Consts.lean", "\n".join(consts))
 
 
